@@ -112,8 +112,10 @@ class H2Client:
     """h2 in client role; raises (h2 exceptions) on any flow-control / framing violation by the server."""
 
     def __init__(self, initial_window: Optional[int] = None, max_frame: Optional[int] = None, enable_push: bool = False,
-                 auto_window: bool = True) -> None:
-        self.conn = h2.connection.H2Connection(config=h2.config.H2Configuration(client_side=True, header_encoding=None))
+                 auto_window: bool = True, validate_outbound: bool = True) -> None:
+        self.conn = h2.connection.H2Connection(config=h2.config.H2Configuration(
+            client_side=True, header_encoding=None, validate_outbound_headers=validate_outbound,
+            normalize_outbound_headers=validate_outbound))
         settings = {h2.settings.SettingCodes.ENABLE_PUSH: int(enable_push)}
         if initial_window is not None:
             settings[h2.settings.SettingCodes.INITIAL_WINDOW_SIZE] = initial_window
@@ -248,3 +250,259 @@ def h2_headers(method: str, path: str, authority: str = "x", scheme: str = "http
     if protocol:
         hs.insert(1, (b":protocol", protocol.encode()))
     return hs + list(extra or [])
+
+
+# ------------------------------------------------------------------------------------------------------------
+# WebSocket
+# ------------------------------------------------------------------------------------------------------------
+class WsClient:
+    """Independent WebSocket client: wsproto `Connection(ConnectionType.CLIENT, …)` parses what the server sends;
+    the opening handshake is written by hand (HTTP/1.1 upgrade) or carried by `H2Client` (RFC 8441 extended CONNECT);
+    outgoing frames are serialised here (RFC 6455 §5.2: FIN/RSV/opcode, 7/16/64-bit length, client mask taken from the
+    harness RNG) so that a text message can be cut *inside* a UTF-8 code point and every byte is reproducible;
+    permessage-deflate goes through wsproto's `PerMessageDeflate` extension object.
+
+    Collected: `messages` [(kind, payload)], `pongs`, `pings` (from the server), `close_code` / `close_reason`,
+    `handshake` {status, headers, body, complete}, `accept_oracle` (what wsproto's own client handshake says about the
+    101 response: "accepted" / "rejected" / "error: …")."""
+
+    OP_CONT, OP_TEXT, OP_BIN, OP_CLOSE, OP_PING, OP_PONG = 0, 1, 2, 8, 9, 10
+
+    def __init__(self, rng=None, deflate: bool = False, subprotocols: Optional[List[str]] = None, path: str = "/ws", host: str = "x") -> None:
+        from wsproto import ConnectionType, WSConnection
+        from wsproto.events import Request as WsRequest
+        from wsproto.extensions import PerMessageDeflate
+        if rng is None:
+            import random
+            rng = random.Random(0)
+        self.rng = rng
+        self.path, self.host = path, host
+        self.subprotocols = list(subprotocols or [])
+        self.ext = PerMessageDeflate() if deflate else None
+        # wsproto's own client handshake: source of the nonce and oracle for the server's 101
+        self.shadow = WSConnection(ConnectionType.CLIENT)
+        shadow_req = self.shadow.send(WsRequest(host=host, target=path, subprotocols=self.subprotocols,
+                                                extensions=[PerMessageDeflate()] if deflate else []))
+        self.key = next(l.split(b":", 1)[1].strip() for l in bytes(shadow_req).split(b"\r\n") if l.lower().startswith(b"sec-websocket-key"))
+        self.conn = None
+        self.handshake: Optional[dict] = None
+        self.accept_oracle: Optional[str] = None
+        self.accepted_subprotocol: Optional[str] = None
+        self.messages: List[Tuple[str, Any]] = []
+        self.pongs: List[bytes] = []
+        self.pings: List[bytes] = []
+        self.close_code: Optional[int] = None
+        self.close_reason: Optional[str] = None
+        self.closes = 0
+        self.error: Optional[str] = None
+        self._cur: Optional[list] = None
+        self._h1buf = b""
+        self._h11 = None
+        self.eof_before_response = False
+        self._first_sent = False       # a fragmented message is in progress (next data frame is a continuation)
+        self.carrier: Optional[str] = None
+
+    # ---------------- opening handshake -----------------
+    def offer_value(self) -> Optional[bytes]:
+        if self.ext is None:
+            return None
+        return (self.ext.name + "; " + self.ext.offer()).encode()
+
+    def default_headers(self, carrier: str) -> List[Tuple[bytes, bytes]]:
+        """the headers of a valid handshake on that carrier (the generators permute / damage this list)"""
+        hs: List[Tuple[bytes, bytes]] = []
+        if carrier == "h1":
+            hs += [(b"Host", self.host.encode()), (b"Upgrade", b"websocket"), (b"Connection", b"Upgrade"), (b"Sec-WebSocket-Key", self.key)]
+        hs.append((b"Sec-WebSocket-Version" if carrier == "h1" else b"sec-websocket-version", b"13"))
+        if self.subprotocols:
+            hs.append((b"Sec-WebSocket-Protocol" if carrier == "h1" else b"sec-websocket-protocol", ", ".join(self.subprotocols).encode()))
+        off = self.offer_value()
+        if off is not None:
+            hs.append((b"Sec-WebSocket-Extensions" if carrier == "h1" else b"sec-websocket-extensions", off))
+        return hs
+
+    def h1_request(self, headers: Optional[List[Tuple[bytes, bytes]]] = None, method: str = "GET", version: str = "1.1") -> bytes:
+        self.carrier = "h1"
+        hs = self.default_headers("h1") if headers is None else headers
+        self._h11 = h11.Connection(h11.CLIENT)
+        # the parser of the *response* only needs to know that a protocol switch was proposed
+        self._h11.send(h11.Request(method="GET", target="/", headers=[("host", "x"), ("upgrade", "websocket"), ("connection", "upgrade")]))
+        return h1_request(method, self.path, hs, version=version)
+
+    def h2_request_headers(self, headers: Optional[List[Tuple[bytes, bytes]]] = None, method: str = "CONNECT",
+                           protocol: Optional[str] = "websocket", scheme: str = "http") -> List[Tuple[bytes, bytes]]:
+        self.carrier = "h2"
+        hs = self.default_headers("h2") if headers is None else headers
+        return h2_headers(method, self.path, authority=self.host, scheme=scheme, extra=hs, protocol=protocol)
+
+    def _negotiated(self, headers: List[List[str]]) -> None:
+        from wsproto import ConnectionType
+        from wsproto.connection import Connection
+        exts = []
+        for n, v in headers:
+            if n.lower() == "sec-websocket-extensions" and self.ext is not None:
+                for piece in v.split(","):
+                    if piece.split(";", 1)[0].strip() == self.ext.name:
+                        self.ext.finalize(piece.strip())
+                        exts = [self.ext]
+            if n.lower() == "sec-websocket-protocol":
+                self.accepted_subprotocol = v
+        self.deflate_on = bool(exts)
+        self.conn = Connection(ConnectionType.CLIENT, exts)
+
+    def feed_h1(self, data: bytes, eof: bool = False) -> None:
+        """bytes from the server on the HTTP/1.1 carrier: response head (h11 client parser), then frames"""
+        if self.error:
+            return
+        if self.conn is not None:
+            self._frames(data)
+            return
+        self._h1buf += data
+        try:
+            if data:
+                self._h11.receive_data(data)
+            if eof:
+                self._h11.receive_data(b"")
+            while True:
+                ev = self._h11.next_event()
+                if ev is h11.NEED_DATA or ev is h11.PAUSED:
+                    break
+                if isinstance(ev, h11.InformationalResponse) and ev.status_code == 101:
+                    self.handshake = {"status": 101, "headers": [[b2s(n), b2s(v)] for n, v in ev.headers], "body": "", "complete": True}
+                    self._oracle()
+                    self._negotiated(self.handshake["headers"])
+                    rest = self._h11.trailing_data[0]
+                    if rest:
+                        self._frames(rest)
+                    return
+                if isinstance(ev, h11.InformationalResponse):
+                    continue
+                if isinstance(ev, h11.Response):
+                    self.handshake = {"status": ev.status_code, "headers": [[b2s(n), b2s(v)] for n, v in ev.headers], "body": "", "complete": False}
+                elif isinstance(ev, h11.Data) and self.handshake is not None:
+                    self.handshake["body"] += b2s(bytes(ev.data))
+                elif isinstance(ev, h11.EndOfMessage):
+                    if self.handshake is not None:
+                        self.handshake["complete"] = True
+                    break
+                elif isinstance(ev, h11.ConnectionClosed):
+                    break
+        except h11.RemoteProtocolError as e:
+            if eof and self.handshake is None:
+                self.eof_before_response = True      # the server closed without answering at all
+            else:
+                self.error = f"h11: {e}"
+
+    def _oracle(self) -> None:
+        """does wsproto's own client accept this 101 (token for *its* key, subprotocol among the offered ones)?"""
+        from wsproto.events import AcceptConnection, RejectConnection
+        from wsproto.utilities import RemoteProtocolError
+        head = self._h1buf.split(b"\r\n\r\n", 1)[0] + b"\r\n\r\n"
+        try:
+            self.shadow.receive_data(head)
+            evs = list(self.shadow.events())
+            if any(isinstance(e, AcceptConnection) for e in evs):
+                self.accept_oracle = "accepted"
+            elif any(isinstance(e, RejectConnection) for e in evs):
+                self.accept_oracle = "rejected"
+            else:
+                self.accept_oracle = "incomplete"
+        except RemoteProtocolError as e:
+            self.accept_oracle = f"error: {e}"
+
+    def feed_h2(self, h2c: "H2Client", sid: int) -> None:
+        """take what `H2Client` collected for stream `sid`: the response head, then DATA = frames"""
+        st = h2c.streams.get(sid)
+        if st is None or self.error:
+            return
+        if self.handshake is None and st["headers"] is not None:
+            hs = st["headers"]
+            status = int(dict((n, v) for n, v in hs).get(":status", "0"))
+            self.handshake = {"status": status, "headers": [h for h in hs if not h[0].startswith(":")], "body": "", "complete": False}
+            if status == 200:
+                self._negotiated(self.handshake["headers"])
+                self.handshake["complete"] = True
+        data = st["data"][getattr(self, "_h2taken", 0):]
+        self._h2taken = len(st["data"])
+        if self.handshake is not None:
+            if self.conn is not None:
+                self._frames(bytes(data))
+            else:
+                self.handshake["body"] += b2s(bytes(data))
+                if st["ended"]:
+                    self.handshake["complete"] = True
+
+    # ---------------- frames from the server -----------------
+    def _frames(self, data: bytes) -> None:
+        from wsproto.events import BytesMessage, CloseConnection, Ping, Pong, TextMessage
+        if not data:
+            return
+        self.conn.receive_data(data)
+        for ev in self.conn.events():
+            if isinstance(ev, (TextMessage, BytesMessage)):
+                kind = "text" if isinstance(ev, TextMessage) else "bytes"
+                if self._cur is None:
+                    self._cur = [kind, "" if kind == "text" else b""]
+                self._cur[1] += ev.data if kind == "text" else bytes(ev.data)
+                if ev.message_finished:
+                    self.messages.append((self._cur[0], self._cur[1]))
+                    self._cur = None
+            elif isinstance(ev, Ping):
+                self.pings.append(bytes(ev.payload))
+            elif isinstance(ev, Pong):
+                self.pongs.append(bytes(ev.payload))
+            elif isinstance(ev, CloseConnection):
+                self.closes += 1
+                if self.close_code is None:
+                    self.close_code, self.close_reason = int(ev.code), ev.reason
+
+    # ---------------- frames to the server -----------------
+    def _frame(self, opcode: int, payload: bytes, fin: bool = True) -> bytes:
+        import struct
+        from wsproto.frame_protocol import Opcode, RsvBits
+        rsv1 = False
+        if self.ext is not None and getattr(self, "deflate_on", False) and opcode in (0, 1, 2):
+            rsv, payload = self.ext.frame_outbound(self.conn._proto, Opcode(opcode), RsvBits(False, False, False), bytes(payload), fin)
+            rsv1 = bool(rsv.rsv1)
+        b0 = (0x80 if fin else 0) | (0x40 if rsv1 else 0) | opcode
+        n = len(payload)
+        if n <= 125:
+            head = bytes([b0, 0x80 | n])
+        elif n <= 0xFFFF:
+            head = bytes([b0, 0x80 | 126]) + struct.pack("!H", n)
+        else:
+            head = bytes([b0, 0x80 | 127]) + struct.pack("!Q", n)
+        mask = bytes(self.rng.randrange(256) for _ in range(4))
+        return head + mask + bytes(c ^ mask[i % 4] for i, c in enumerate(payload))
+
+    def data_frame(self, kind: str, payload: bytes, fin: bool) -> bytes:
+        op = self.OP_CONT if self._first_sent else (self.OP_TEXT if kind == "text" else self.OP_BIN)
+        self._first_sent = not fin
+        return self._frame(op, payload, fin)
+
+    def message(self, kind: str, frags: List[bytes], ctl: Optional[List[List[Tuple[str, bytes]]]] = None) -> bytes:
+        """one message as the given fragments (raw bytes; text = UTF-8, may be cut inside a code point);
+        `ctl[i]` = control frames [("ping"|"pong", payload)] put before fragment i"""
+        out = b""
+        for i, f in enumerate(frags):
+            for k, p in (ctl[i] if ctl else []):
+                out += self.ping(p) if k == "ping" else self.pong(p)
+            out += self.data_frame(kind, f, i == len(frags) - 1)
+        return out
+
+    def ping(self, payload: bytes = b"") -> bytes:
+        return self._frame(self.OP_PING, payload)
+
+    def pong(self, payload: bytes = b"") -> bytes:
+        return self._frame(self.OP_PONG, payload)
+
+    def close(self, code: Optional[int] = None, reason: str = "") -> bytes:
+        import struct
+        payload = b"" if code is None else struct.pack("!H", code) + reason.encode()
+        return self._frame(self.OP_CLOSE, payload)
+
+    def summary(self) -> dict:
+        return {"handshake": self.handshake, "accept_oracle": self.accept_oracle, "subprotocol": self.accepted_subprotocol,
+                "messages": [[k, (p if k == "text" else b2s(p))] for k, p in self.messages], "pongs": [b2s(p) for p in self.pongs],
+                "pings": [b2s(p) for p in self.pings], "close_code": self.close_code, "closes": self.closes, "error": self.error, "eof_before_response": self.eof_before_response,
+                "partial": None if self._cur is None else self._cur[0]}
